@@ -34,10 +34,10 @@ def main():
         subprocess.run(["git", "-C", "/repo", "worktree", "add", "-q", "--detach", WT, "HEAD"], check=True)
     for d in sys.argv[1:]:
         d = os.path.abspath(d)
-        sh("git checkout -q -- . && git clean -fdq -- src examples tests")
+        sh("git reset -q --hard HEAD && git clean -fdq -- src examples tests")
         subprocess.run(["cp", os.path.join(d, "demo.rs"), os.path.join(WT, "examples", "seed_demo.rs")], check=True)
         rc0, out0 = demo()
-        r = sh(f"git apply {d}/patch.diff")
+        r = sh(f"git apply --3way {d}/patch.diff && git reset -q")
         res = {"dir": d, "demo_unchanged_rc": rc0, "applies": r.returncode == 0}
         if r.returncode == 0:
             b = sh("cargo build --offline 2>&1")
@@ -49,8 +49,9 @@ def main():
             res["demo_patched_tail"] = out1[-300:]
         res["confirmed"] = bool(res.get("applies") and res.get("compiles") and not res.get("baseline_missing")
                                 and rc0 == 0 and res.get("demo_patched_rc", 0) != 0)
-        sh("git checkout -q -- . && git clean -fdq -- src examples tests")
-        json.dump(res, open(os.path.join(d, "verified.json"), "w"), indent=1)
+        sh("git reset -q --hard HEAD && git clean -fdq -- src examples tests")
+        res["base"] = subprocess.run(["git", "-C", WT, "rev-parse", "--short", "HEAD"], capture_output=True, text=True).stdout.strip()
+        json.dump(res, open(os.path.join(d, os.environ.get("SEEDVERIFY_OUT", "verified.json")), "w"), indent=1)
         print(json.dumps(res)[:500])
 
 
